@@ -529,6 +529,58 @@ package ledger
 //@   modifies allmaps(memItems.gotItems)
 //@   ensures result == nil
 
+
+// ---- the governance controller's proposal ledger (same region discipline) --------------------------
+//@ func (l ILedger_proposalLedger) Get(key)
+//@   requires !cons_ok                                                                     [C06]
+//@   modifies allmaps(memItems.gotItems), itemkey, itemenc
+//@   allocates GovProposal, voteOption, Voter, uint256.Int
+//@   ensures items_same() && ((result1 == nil) <==> (result0 != nil))
+//@   ensures result1 == nil ==> wf_prop(result0) && voters_ok(result0) && itemkey[result0] == key
+//@   ensures result1 == nil ==> result0 == propof(l, key, 0)
+
+//@ func (l IFinalityLedger_proposalLedger) GetFinality(key)
+//@   requires cons_ok                                                                     [C06]
+//@   modifies allmaps(memItems.gotItems), itemkey, itemenc
+//@   allocates GovProposal, voteOption, Voter, uint256.Int
+//@   ensures items_same() && ((result1 == nil) <==> (result0 != nil))
+//@   ensures result1 == nil ==> wf_prop(result0) && voters_ok(result0) && itemkey[result0] == key
+//@   ensures result1 == nil ==> result0 == propof(l, key, 1)
+
+//@ func (l ILedger_proposalLedger) Set(item)
+//@   requires !cons_ok                                                                     [C06]
+//@   requires item != nil
+//@   modifies allmaps(memItems.gotItems)
+//@   ensures result == nil
+
+//@ func (l IFinalityLedger_proposalLedger) SetFinality(item)
+//@   requires cons_ok                                                                     [C06]
+//@   requires item != nil
+//@   modifies allmaps(memItems.gotItems)
+//@   ensures result == nil
+
+//@ func (l ILedger_proposalLedger) Del(key)
+//@   requires !cons_ok                                                                     [C06]
+//@   modifies allmaps(memItems.gotItems), memItems.removedKeys, allelems(memItems.removedKeys), itemkey, itemenc
+//@   allocates GovProposal, voteOption, Voter, uint256.Int
+//@   ensures items_same() && ((result1 == nil) <==> (result0 != nil))
+
+//@ func (l IFinalityLedger_proposalLedger) DelFinality(key)
+//@   requires cons_ok                                                                     [C06]
+//@   modifies allmaps(memItems.gotItems), memItems.removedKeys, allelems(memItems.removedKeys), itemkey, itemenc
+//@   allocates GovProposal, voteOption, Voter, uint256.Int
+//@   ensures items_same() && ((result1 == nil) <==> (result0 != nil))
+
+//@ func (l ILedger_proposalLedger) CancelSet(key)
+//@   requires !cons_ok                                                                     [C06]
+//@   modifies allmaps(memItems.gotItems)
+//@   ensures result == nil
+
+//@ func (l IFinalityLedger_proposalLedger) CancelSetFinality(key)
+//@   requires cons_ok                                                                     [C06]
+//@   modifies allmaps(memItems.gotItems)
+//@   ensures result == nil
+
 //@ func ToLedgerKey(s)
 //@   trusted
 //@   pure
